@@ -64,13 +64,19 @@ fn hist_json(lists: &[Vec<Det>], h: &[Call]) -> serde_json::Value {
 
 pub fn run_c04(tier: Tier) -> Report {
     let rep = Report::new("C04", tier);
-    let ls = Arc::new(tie_free_lists());
-    rep.set_rule("every history of depth <= D (quick 4, thorough 5) over predict(scene in {0,1,2}, one of 7 tie-free detection lists occupying the same image region in every scene), on Sort / VisualSort / BatchSort / BatchVisualSort x IoU / Mahalanobis; differential oracle: for every scene the records of the interleaved run equal those of a fresh tracker fed only that scene's calls (boxes, epochs, lengths, voting type bit for bit, ids up to an incrementally built bijection), and no record carries an id first issued in another scene. For the batch trackers additionally every history of depth <= 2 (3 thorough) over single-scene and TWO-SCENE batches (5 lists incl. mutual occlusion and a jump beyond positional reach) with own-area thresholds on / off: every scene of a shared batch must equal the run of a fresh tracker fed that scene alone. Plus an expiry family: max idle 0, the store-wide collection of expired tracks every 1 / 2 / 3 calls, every history of depth <= 5 (thorough 6) over 2 scenes x 3 lists on all four trackers, same differential oracle. Schedule part (batch trackers, pipelined use: consumer threads retrieve while the next batch is submitted, 1-2 voting threads): every interleaving within a deviation bound of batch sequences in which a scene is followed by a batch of foreign scenes only and then appears again (A / B / A), or is absent from a batch; every scene's records must equal its solo run. Non-trivial = history touching at least two scenes.");
+    // the last list is a call the library REJECTS (a detection with an invalid confidence makes it panic while it
+    // builds its candidates; the caller recovers): used on scenes 1 and 2 of the simple trackers only
+    let ls = Arc::new({
+        let mut l = tie_free_lists();
+        l.push(vec![p1(), q().cid(REJECT_ID)]);
+        l
+    });
+    rep.set_rule("every history of depth <= D (quick 4, thorough 5) over predict(scene in {0,1,2}, one of 7 tie-free detection lists occupying the same image region in every scene), on Sort / VisualSort / BatchSort / BatchVisualSort x IoU / Mahalanobis; differential oracle: for every scene the records of the interleaved run equal those of a fresh tracker fed only that scene's calls (boxes, epochs, lengths, voting type bit for bit, ids up to an incrementally built bijection), and no record carries an id first issued in another scene; for the simple trackers the alphabet also holds a call on scene 1 / 2 that the library rejects (a detection with an invalid confidence: the call panics, the caller recovers) - it must not change what the other scenes are told. For the batch trackers additionally every history of depth <= 2 (3 thorough) over single-scene and TWO-SCENE batches (5 lists incl. mutual occlusion and a jump beyond positional reach) with own-area thresholds on / off: every scene of a shared batch must equal the run of a fresh tracker fed that scene alone. Plus an expiry family: max idle 0, the store-wide collection of expired tracks every 1 / 2 / 3 calls, every history of depth <= 5 (thorough 6) over 2 scenes x 3 lists on all four trackers, same differential oracle. Schedule part (batch trackers, pipelined use: consumer threads retrieve while the next batch is submitted, 1-2 voting threads): every interleaving within a deviation bound of batch sequences in which a scene is followed by a batch of foreign scenes only and then appears again (A / B / A), or is absent from a batch; every scene's records must equal its solo run. Non-trivial = history touching at least two scenes.");
     rep.assume("tie-free inputs (no exact duplicates): both runs perform the same arithmetic per scene if isolation holds; sequential use under the default schedule");
     let depth = tier.pick(4usize, 5usize);
-    let nl = ls.len();
+    let nl = ls.len() - 1;
     let scenes = [0u64, 1, 2];
-    let alpha: Vec<Call> = scenes.iter().flat_map(|s| (0..nl).map(move |l| (*s, l))).collect();
+    let alpha_valid: Vec<Call> = scenes.iter().flat_map(|s| (0..nl).map(move |l| (*s, l))).collect();
     let mut cfgs = vec![];
     for kind in Kind::all() {
         for pos in [Pos::Iou(0.3), Pos::Maha] {
@@ -94,6 +100,10 @@ pub fn run_c04(tier: Tier) -> Report {
         if rep.out_of_time() {
             rep.cap_hit(&format!("wall budget reached before {:?}", cfg.json()));
             continue;
+        }
+        let mut alpha = alpha_valid.clone();
+        if !cfg.kind.is_batch() {
+            alpha.extend([(1u64, nl), (2u64, nl)]);
         }
         // scene symmetry: the first call is always on scene 0 (scenes are interchangeable labels)
         let mut hs: Vec<Vec<usize>> = vec![];
